@@ -32,6 +32,7 @@ IDMASK = re.compile(r'with id=\d+>')
 
 MIXED_KEYS = ['dict', [[['int', 1], ['int', 1]], [['str', 'a'], ['int', 2]], [['none'], ['int', 3]], [['tuple', [['int', 1]]], ['int', 4]],
                        [['bytes', '78'], ['int', 5]], [['float', '2.5'], ['int', 6]], [['bool', False], ['int', 7]], [['fset', []], ['int', 8]]]]
+LONG_KEY_DICT = ['dict', [[['str', 'a fairly long key made of several words'], ['int', 1]], [['bytes', b'another key of some length'.hex()], ['list', [['int', 2]]]]]]
 COLD_CORPUS = [
     (['std', 'uuid', '12345678123456781234567812345678'], {}),
     (['std', 'enum', 'Color', 'RED'], {}),
@@ -61,6 +62,8 @@ COLD_CORPUS = [
     (['list', [['cmt', 'member', ['std', 'enum', 'Color', 'GREEN']], ['int', 1]]], {}),
     (['dict', [[['str', 'p'], ['tcmt', 'tc', ['std', 'path', 'PurePosixPath', '/a/b']]]]], {}),
     (['pred', 1, 7], {}),
+    (LONG_KEY_DICT, {'width': 100}),
+    (LONG_KEY_DICT, {'width': 24}),
     (['list', [['pred', 0, 8]]], {}),
     (['dict', [[['str', 'k'], ['cmt', 'the quick brown fox jumps over the lazy dog again and again until the line has to wrap', ['list', [['int', 1], ['int', 2]]]]]]], {'width': 40}),
     (['tcmt', 'first line\n   \nlast line', ['list', [['int', 1]]]], {}),
@@ -152,6 +155,8 @@ def strategy(tier):
     ws_comment = st.sampled_from(['a\n  \nb', '   ', 'x\n \n', 'one two\n\t\nthree'])
     long_comment = st.just('the quick brown fox jumps over the lazy dog again and again until the line has to wrap around')
     small_list = st.lists(S['r_int'], min_size=1, max_size=3).map(lambda xs: ['list', xs])
+    same_value_two_widths = st.tuples(st.sampled_from([LONG_KEY_DICT, ['list', [['str', 'lorem ipsum dolor sit amet consectetur adipiscing elit']]]]),
+                                     st.sampled_from([{'width': 12}, {'width': 24}, {'width': 50}, {'width': 100}, {'width': 100, 'indent': 2}])).map(list)
     comment_items = st.one_of(
         st.tuples(ws_comment, small_list).map(lambda p: ['tcmt', p[0], p[1]]),
         st.tuples(ws_comment, S['r_int']).map(lambda p: ['dict', [[['cmt', p[0], p[1]], ['int', 0]]]]),
@@ -159,6 +164,7 @@ def strategy(tier):
         st.tuples(long_comment, small_list).map(lambda p: ['list', [['cmt', p[0], p[1]], ['int', 1]]]),
     )
     item = st.one_of(
+        same_value_two_widths, same_value_two_widths,
         st.one_of(pred_item, pred_item.map(lambda r: ['list', [r]])).map(lambda r: [r, {}]),
         st.tuples(comment_items, st.sampled_from([{'width': 30}, {'width': 40}, {}])).map(list),
         st.tuples(flaky_tree, cfg).map(list),
@@ -291,6 +297,8 @@ INTERFERERS = [
     ('fail', ['list', [['dict', [[['str', 'k'], ['list', [['flaky', 1]]]]]]]], {}),
     ('ok', ['list', [['std', 'path', 'PurePosixPath', '/a/b'], ['std', 'uuid', '0' * 32], ['std', 'partial', 'partial', 'len', [], []]]], {}),
     ('ok', ['dict', [[['str', 'k'], ['cmt', 'c', ['str', 'lorem ipsum dolor sit amet consectetur adipiscing elit sed do']]]]], {'width': 20}),
+    ('ok', LONG_KEY_DICT, {'width': 24}),
+    ('ok', LONG_KEY_DICT, {'width': 12, 'indent': 2}),
     ('ok', ['pred', 0, 1], {}),
     ('ok', ['list', [['pred', 1, 2]]], {}),
     ('ok', ['tcmt', 'a\n  \nb', ['list', [['int', 1]]]], {}),
@@ -314,7 +322,7 @@ def custom_phase(tier, seed, st, procs):
     jobs = []
     for i, (r, cfg) in enumerate(corpus):
         jobs.append((i, None, [['ok', r, cfg]]))
-    targets = range(len(corpus)) if tier == 'thorough' else [0, 1, 5, 12, 16, 17, 23, 24, 25, 26, 27, 28, 29, 30]
+    targets = range(len(corpus)) if tier == 'thorough' else [0, 1, 5, 12, 16, 17] + list(range(23, len(corpus)))
     for k, (mode, ir, icfg) in enumerate(INTERFERERS):
         for i in targets:
             r, cfg = corpus[i]
